@@ -2,11 +2,13 @@ SPECIFICATION Spec
 CONSTANTS
   RangeBug = FALSE
   SliceBug = FALSE
-  GenPart = "ab"
+  GenPart = "abh"
   NScrub = 3000
   NDb = 24
   NFind = 20
   NPages_ = 4
   NFacet = 4
+  NHist = 30
+  NHSteps = 24
 INVARIANT Emit
 CHECK_DEADLOCK FALSE
